@@ -459,7 +459,8 @@ func (s *c06State) incReply(val string, inc bool, m *hydrapb.IncrementResponseMe
 	ms := "-"
 	if m != nil {
 		s.noteServer(t0, t1, m.CreatedAt, m.UpdatedAt)
-		ms = strings.Join([]string{s.tsOut(m.CreatedAt), m.GetCreatedBy(), s.tsOut(m.UpdatedAt), m.GetUpdatedBy(), s.tsOut(m.ExpiredAt)}, "|")
+		// created / updated stamps taken by the server in an EARLIER request (PatchTreasures metadata) are recognised by their value, as in rec()
+		ms = strings.Join([]string{s.tsOutStamp(m.CreatedAt), m.GetCreatedBy(), s.tsOutStamp(m.UpdatedAt), m.GetUpdatedBy(), s.tsOut(m.ExpiredAt)}, "|")
 	}
 	return "inc " + val + " " + b + " " + ms
 }
@@ -1288,16 +1289,10 @@ func c06F32Bits(f float32) uint32 {
 	return math.Float32bits(f)
 }
 
-// values for Set hold neither a NaN nor -0.0: the setters decide "same value" with the float comparison (a NaN
-// differs from itself: UPDATED for the same bits; -0.0 equals +0.0: NOTHING_CHANGED and the old sign stays), where
-// the model compares bit patterns.  Both reach a record through Increment steps and conditions only.
-func c06SetF64(rng *rand.Rand) float64 {
-	for {
-		if f := c06Pick(rng, c06F64s); f == f && !(f == 0 && math.Signbit(f)) {
-			return f
-		}
-	}
-}
+// values for Set include NaN and -0.0: the setters decide "same value" with the float comparison (the same NaN
+// again is UPDATED, -0.0 over +0.0 is NOTHING_CHANGED and the old sign stays) — listed finding
+// float-set-compares-by-value, reproduced by the driver from the fact fltSetBitwise
+func c06SetF64(rng *rand.Rand) float64 { return c06Pick(rng, c06F64s) }
 
 func c06Value(rng *rand.Rand) string {
 	switch rng.Intn(16) {
@@ -1480,8 +1475,12 @@ func c06RandOp(rng *rand.Rand, meta bool) string {
 		return "push " + c06U32Pairs(rng)
 	case r < 89:
 		return "u32del " + c06U32Pairs(rng)
-	case r < 92:
+	case r < 90:
 		return "size " + c06Pick(rng, c06Keys)
+	case r < 92:
+		// PatchTreasures (metadata only): it can summon, and with CreateIfNotExist create, a swamp
+		ki := rng.Intn(len(c06Keys))
+		return "patch " + c06Pick(rng, []string{"0", "0", "1"}) + " " + c06Keys[ki] + " " + c30Meta(rng, ki)
 	case r < 95:
 		return "hasval " + c06Pick(rng, c06Keys) + " " + c06Pick(rng, []string{"1", "2", "7"})
 	default:
@@ -1497,6 +1496,9 @@ type c06CorpusCase struct {
 }
 
 var c06Corpus = []c06CorpusCase{
+	{[]string{"mem", "p1"}, []string{"set 11 k0|f64:0000000000000000||||| k1|f64:7ff8000000000000||||| k2|f32:80000000|||||", "set 11 k0|f64:8000000000000000||||| k1|f64:7ff8000000000000||||| k2|f32:00000000|||||", "getall"}},
+	// PatchTreasures without CreateIfNotExist on a swamp that does not exist leaves nothing behind
+	{[]string{"mem", "p1"}, []string{"patch 0 k0 0||0|u1||0", "issw", "count", "mcount", "set 01 k0|i64:1|||||", "issw", "patch 1 k0 0||0|u1||0", "issw", "getall", "del k0", "issw"}},
 	// conditions on stored values beyond the sign bit of their width (an unsigned comparison through a signed cast fails here)
 	{[]string{"mem"}, []string{"set 11 k0|u64:9223372036854775809||||| k1|u32:2147483649||||| k2|u16:32769||||| k3|u8:129||||| k4|i64:-9223372036854775808|||||",
 		"inc u64 k0 1 gt:5 - -", "inc u64 k0 1 lt:5 - -", "inc u64 k0 1 ge:9223372036854775808 - -", "inc u64 k0 1 le:9223372036854775807 - -",
